@@ -1,6 +1,7 @@
 import EmsModel.Core.ClipProto
 import EmsModel.Core.MaskingSrc
 import EmsModel.Gen.MaskingSrc
+import EmsModel.Core.CGridClip
 /-! Line-protocol driver for C08 / C09 (applying clip masks); see `Core/ClipProto.lean`.
 
 Ops evaluating the terms GENERATED from the source text of `emsarray.masking` (`Gen/MaskingSrc.lean`), cross-check of
@@ -10,6 +11,43 @@ Ops evaluating the terms GENERATED from the source text of `emsarray.masking` (`
   `srcbounds <name=arr;…> <dims d,d,…>`  → `d=lo:hi,…` in the order asked | `ERR`
   `srcclip <name=arr;…> <m|u> <arr>`     → array | `ERR` (same meaning as `gridclip`, computed by the generated programs) -/
 open Ems Ems.Proto
+
+/-! S6 — one clip of an Arakawa C dataset from the hit cells to the clipped variable (`Core/CGridClip.lean`):
+  `cclip <ny>x<nx> <bits of the cells whose polygon meets the geometry> <buffer> <jf,if;jb,ib;jl,il;jn,in> <m|u> <arr>`
+        → array | `ERR`   (face / back / left / node dimension names; `make_clip_mask` + `mask_grid_dataset`) -/
+namespace Ems.CGridProto
+open Ems.ArrProto Ems.ClipProto
+
+def parsePair? (s : String) : Option (String × String) :=
+  match s.splitOn "," with
+  | [a, b] => some (a, b)
+  | _ => none
+
+def parseDims4? (s : String) : Option CGridDims :=
+  match (s.splitOn ";").map parsePair? with
+  | [some f, some b, some l, some n] => some { face := f, back := b, left := l, node := n }
+  | _ => none
+
+def parseShape2? (s : String) : Option (Nat × Nat) :=
+  match (s.splitOn "x").map String.toNat? with
+  | [some ny, some nx] => some (ny, nx)
+  | _ => none
+
+def step? (ws : List String) : Option String :=
+  match ws with
+  | ["cclip", shape, hitbits, buffer, dims, fill, arr] =>
+    some (match parseShape2? shape, parseBits? hitbits, buffer.toNat?, parseDims4? dims, parseArr? arr with
+    | some (ny, nx), some hb, some b, some d, some a =>
+      if hb.length ≠ ny * nx then "BAD" else
+      let hits := (List.range (ny * nx)).filter fun n => hb.getD n false
+      let fk := if fill == "m" then FillKind.maskable else FillKind.unmaskable
+      match arakawaClipVar d ny nx hits (Int.ofNat b) fk a with
+      | some r => showArr r
+      | none => "ERR"
+    | _, _, _, _, _ => "BAD")
+  | _ => none
+
+end Ems.CGridProto
 
 namespace Ems.MaskingSrcProto
 open Ems.ArrProto Ems.ClipProto
@@ -72,5 +110,8 @@ end Ems.MaskingSrcProto
 def step (line : String) : String :=
   match Ems.MaskingSrcProto.step? (words line) with
   | some s => s
-  | none => (Ems.ClipProto.step? (words line)).getD "BAD"
+  | none =>
+    match Ems.CGridProto.step? (words line) with   -- S6
+    | some s => s
+    | none => (Ems.ClipProto.step? (words line)).getD "BAD"
 def main : IO Unit := loop step
